@@ -154,9 +154,21 @@ def job_solve(cfg):
                     out = [('static-increments', Sym.lift(len(incs)), Sym.lift(1))]
             else:
                 from compmech.analysis import Analysis
-                A = Analysis(calc_fext=lambda silent=False: f, calc_k0=lambda silent=False: K)
+                state = {'K': K, 'f': f}
+                A = Analysis(calc_fext=lambda silent=False: state['f'], calc_k0=lambda silent=False: state['K'])
                 incs, cs = A.static(NLgeom=False, silent=True)
                 c = cs[-1]
+                if cfg.get('second'):
+                    # the structure is re-defined between two runs of the SAME analysis object (its callables now return the new
+                    # stiffness and loads): the second solution must solve the CURRENT system
+                    active = cfg['second']
+                    K = sym_matrix('K2_', n, active, V)
+                    f = np.zeros(n, dtype=object)
+                    for r in range(n):
+                        f[r] = V('g%d' % r)
+                    state['K'], state['f'] = K, f
+                    incs, cs = A.static(NLgeom=False, silent=True)
+                    c = cs[-1]
                 if list(incs) != [1.]:
                     out = [('static-increments', Sym.lift(len(incs)), Sym.lift(1))]
     except Exception as e:
@@ -221,8 +233,19 @@ def real_solve_replay(cfg):
             c = static(sp.csr_matrix(K), f, silent=True)[1][-1]
         else:
             from compmech.analysis import Analysis
-            A_ = Analysis(calc_fext=lambda silent=False: f, calc_k0=lambda silent=False: sp.csr_matrix(K))
+            st = {'K': sp.csr_matrix(K), 'f': f}
+            A_ = Analysis(calc_fext=lambda silent=False: st['f'], calc_k0=lambda silent=False: st['K'])
             c = A_.static(NLgeom=False, silent=True)[1][-1]
+            if cfg.get('second'):
+                active = cfg['second']
+                u = len(active)
+                A2 = rng.rand(u, u)
+                K = np.zeros((n, n))
+                K[np.ix_(active, active)] = A2.dot(A2.T) + u * np.eye(u)
+                f = np.zeros(n)
+                f[active] = rng.rand(u) + 0.5
+                st['K'], st['f'] = sp.csr_matrix(K), f
+                c = A_.static(NLgeom=False, silent=True)[1][-1]
     except Exception as e:
         return {'error': '%s: %s' % (type(e).__name__, e)}
     c = np.asarray(c)
@@ -240,6 +263,9 @@ def solve_configs(tier):
         out.append({'target': target, 'n': 5, 'active': [0, 1, 3, 4], 'zero_diag': [3], 'group': 'solve-zero-diagonal-row:%s' % target})
         if tier != 'quick':
             out.append({'target': target, 'n': 6, 'active': [0, 1, 3, 5], 'group': 'solve:%s' % target})
+    # two linear runs of one Analysis object with the structure re-defined in between (same size; same and different null pattern)
+    out.append({'target': 'Analysis.static', 'n': 4, 'active': [0, 1, 2, 3], 'second': [0, 1, 2, 3], 'group': 'solve-second-run-after-redefinition:Analysis.static'})
+    out.append({'target': 'Analysis.static', 'n': 5, 'active': [0, 2, 3], 'second': [0, 1, 3, 4], 'group': 'solve-second-run-after-redefinition:Analysis.static'})
     return out
 
 
